@@ -375,11 +375,18 @@ def queryWithSession (P : Parser) (w : World) (user : String) (text : List Char)
     if se.closed then queryProgram P w none text
     else if se.facts.isEmpty && se.rules.isEmpty then queryProgram P w (some se.kg) text
     else
+      -- slow path (3930-3996): `transform_query_shorthand(strip_comments(text))`. The statement is read
+      -- here from the single logical line; it coincides with `trim (strip_comments text)` whenever
+      -- that has no newline (checked by the correspondence run on every case, not proved).
       let pre := trim (stripComments text)
       if !hasKg w se.kg then ⟨w, .err "nokg", []⟩
-      else if pre.contains '\n' || stripInlineComment pre != pre then ⟨w, .err "queryparse", []⟩   -- `transform_query_shorthand` on the whole text (3939)
-      else match parseStatement P pre with
-        | some ⟨.query, .query rel n⟩ => ⟨w, .rows (scanRows w se.kg rel se.facts), [⟨⟨.query, .query rel n⟩, se.kg⟩]⟩
+      else if pre.contains '\n' then ⟨w, .err "queryparse", []⟩   -- `transform_query_shorthand` on a multi-line text
+      else match logicalLines text with
+        | [l] =>
+          if stripInlineComment l != l then ⟨w, .err "queryparse", []⟩
+          else (match parseStatement P l with
+            | some ⟨.query, .query rel n⟩ => ⟨w, .rows (scanRows w se.kg rel se.facts), [⟨⟨.query, .query rel n⟩, se.kg⟩]⟩
+            | _ => ⟨w, .err "unsupported:slow-path-text", []⟩)
         | _ => ⟨w, .err "unsupported:slow-path-text", []⟩
 
 def startsWithChar (c : Char) : List Char → Bool
@@ -388,17 +395,20 @@ def startsWithChar (c : Char) : List Char → Bool
 
 /-- what `execute_program` does with the result of the query path (handler.rs:4579-4623): session
     re-binding, owner ACL for a created KG, cleanup after a drop, error-message conversion -/
-def postProcess (_w : World) (role : Option (String × Role)) (whole : Option Stmt) (sraw : Option Sess) (r : Out) : Out :=
+def postCore (role : Option (String × Role)) (whole : Option Stmt) (sraw : Option Sess) (r : Out) : World × Res :=
   match r.res with
-  | .err e => ⟨r.w, .err e, r.trace⟩
+  | .err e => (r.w, .err e)
   | res =>
     let sw : Option String := match res with | .msgs _ s => s | _ => none
     let msgs : List String := match res with | .msgs m _ => m | _ => []
     -- session re-binding (4580): `switch_kg` also clears the session's ephemeral state
+    if (match sw, sraw, role with
+        | some n, some _, some (_, ro) => n == INTERNAL && ro != Role.admin
+        | _, _, _ => false) then (r.w, .err "denied-internal") else      -- never bind a non-admin session to the system KG
     match (match sw, sraw with
            | some n, some se => if se.closed then none else some (updSess r.w se.user fun s => { s with kg := n, facts := [], rules := [] })
            | _, _ => some r.w) with
-    | none => ⟨r.w, .err "sessiongone", r.trace⟩
+    | none => (r.w, .err "sessiongone")
     | some w1 =>
     -- owner ACL for the creator (4586-4594)
     let w2 := match role, whole with
@@ -414,8 +424,12 @@ def postProcess (_w : World) (role : Option (String × Role)) (whole : Option St
       | _ => w2
     -- single error-like message → Err (4614-4621)
     match msgs with
-    | [m] => if isErrorMsg m then ⟨w3, .err (errOfMsg m), r.trace⟩ else ⟨w3, res, r.trace⟩
-    | _ => ⟨w3, res, r.trace⟩
+    | [m] => if isErrorMsg m then (w3, .err (errOfMsg m)) else (w3, res)
+    | _ => (w3, res)
+
+/-- `postCore` never touches the trace -/
+def postProcess (_w : World) (role : Option (String × Role)) (whole : Option Stmt) (sraw : Option Sess) (r : Out) : Out :=
+  ⟨(postCore role whole sraw r).1, (postCore role whole sraw r).2, r.trace⟩
 
 /-- the identity `execute_program` works with (handler.rs:4270-4284): outer `none` = the user no longer
     exists; `some none` = no `auth` supplied -/
@@ -475,52 +489,104 @@ def execRest (P : Parser) (w : World) (rq : Req) (role : Option (String × Role)
   | some o => o
   | none => queryPath P w rq role whole sraw
 
-/-- `Handler::execute_program` (handler.rs:4248) -/
-def execProgram (P : Parser) (w : World) (rq : Req) : Out :=
-  let trimmed := trim rq.text
-  match identityOf w rq.user with
-  | none => ⟨w, .err "denied-nouser", []⟩
-  | some role =>
-  let whole := parseStatement P trimmed
-  -- `session_id` as supplied (it may name a session that no longer exists)
-  let sraw : Option Sess := sessOf w rq
-  let curKg : Option String := currentKg rq.kgArg sraw
-  match gates w role whole curKg with
-  | some e => ⟨w, .err e, []⟩
-  | none =>
-  let ev (st : Stmt) : List Event := [⟨st, curKg.getD "default"⟩]
-  -- fast path: session / user / ACL meta commands (4382-4476)
-  match (if startsWithChar '.' trimmed then whole else none) with
+/-! ### authorization of every logical line (`Handler::authorize_program`) -/
+
+/-- what the pre-pass knows while it walks the lines: the running KG and the set of existing KGs -/
+structure Sim where
+  kg : Option String
+  existing : List String
+  deriving DecidableEq, Repr
+
+/-- follow the executor's KG switches (`.kg use` of an existing KG, `.kg create` of a new one) and
+    its drops -/
+def simStep (sim : Sim) (st : Stmt) : Sim :=
+  match st.kind, st.eff with
+  | .kgUse, .name n => if sim.existing.contains n then { sim with kg := some n } else sim
+  | .kgCreate, .name n => if sim.existing.contains n then sim else ⟨some n, sim.existing ++ [n]⟩
+  | .kgDrop, .name n => if sim.kg != some n && n != "default" then { sim with existing := sim.existing.filter (· != n) } else sim
+  | _, _ => sim
+
+/-- the loop of `authorize_program`: the three gates on every line that parses, with the running KG;
+    `some e` = the request is refused -/
+def authorizeLines (P : Parser) (w : World) (role : Option (String × Role)) : Sim → List (List Char) → Option String
+  | _, [] => none
+  | sim, l :: ls =>
+    match parseStatement P l with
+    | none => authorizeLines P w role sim ls          -- phase 1 of the executor rejects the whole program
+    | some st =>
+      match gates w role (some st) sim.kg with
+      | some e => some e
+      | none => authorizeLines P w role (simStep sim st) ls
+
+def authorizeProgram (P : Parser) (w : World) (role : Option (String × Role)) (startKg : Option String)
+    (lines : List (List Char)) : Option String :=
+  match gateInternal role none startKg with
+  | some e => some e
+  | none => authorizeLines P w role ⟨startKg, w.kgs.map (·.name)⟩ lines
+
+/-- the KG the program starts executing on: `?…` with a session id → the session's KG; else the explicit
+    KG, else the live session's KG; else the storage default -/
+def startKgOf (rq : Req) (sraw : Option Sess) : String :=
+  let sessKg := (sraw.filter (!·.closed)).map (·.kg)
+  ((if startsWithChar '?' (trim rq.text) && sraw.isSome then sessKg else (rq.kgArg <|> sessKg)).getD "default")
+
+/-- the only statement of a one-statement program -/
+def singleStmt (P : Parser) (text : List Char) : Option Stmt :=
+  match logicalLines text with
+  | [l] => parseStatement P l
+  | _ => none
+
+/-- fast path: session / user / ACL meta commands handled without `query_program`; `none` = not handled -/
+def fastPath (w : World) (sraw : Option Sess) (single : Option Stmt) (cur : String) : Option Out :=
+  let ev (st : Stmt) : List Event := [⟨st, cur⟩]
+  match single with
   | some ⟨.sessionClear, e⟩ =>
     (match sraw with
-     | none => ⟨w, .err "nosession", []⟩
+     | none => some ⟨w, .err "nosession", []⟩
      | some se =>
-       if se.closed then ⟨w, .err "sessiongone", []⟩ else
-       ⟨updSess w se.user fun s => { s with facts := [], rules := [] },
+       if se.closed then some ⟨w, .err "sessiongone", []⟩ else
+       some ⟨updSess w se.user fun s => { s with facts := [], rules := [] },
         .msgs [s!"sclear:{se.facts.length}:{se.rules.length}"] none, ev ⟨.sessionClear, e⟩⟩)
   | some ⟨.userList, e⟩ =>
     (match findKg w INTERNAL with
-     | none => ⟨w, .err "unsupported:no-internal", []⟩
-     | some k => ⟨w, .rows ((relOf k "users").filterMap fun t => match t with | a :: _ :: c :: _ => some [a, c] | _ => none), ev ⟨.userList, e⟩⟩)
-  | some ⟨.kgAclList, e⟩ => ⟨w, .msgs ["acllist"] none, ev ⟨.kgAclList, e⟩⟩
+     | none => some ⟨w, .err "unsupported:no-internal", []⟩
+     | some k => some ⟨w, .rows ((relOf k "users").filterMap fun t => match t with | a :: _ :: c :: _ => some [a, c] | _ => none), ev ⟨.userList, e⟩⟩)
+  | some ⟨.kgAclList, e⟩ => some ⟨w, .msgs ["acllist"] none, ev ⟨.kgAclList, e⟩⟩
   | some ⟨.kgAclGrant, .aclGrant kg user r⟩ =>
-    if (kgRoleOfString r).isNone then ⟨w, .err "unsupported:bad-role", []⟩
-    else if !hasKg w kg then ⟨w, .err "kgnotfound", []⟩
-    else if !hasKg w INTERNAL then ⟨w, .err "unsupported:no-internal", []⟩
-    else ⟨aclGrant w kg user r, .msgs ["granted"] none, ev ⟨.kgAclGrant, .aclGrant kg user r⟩⟩
+    if (kgRoleOfString r).isNone then some ⟨w, .err "unsupported:bad-role", []⟩
+    else if !hasKg w kg then some ⟨w, .err "kgnotfound", []⟩
+    else if !hasKg w INTERNAL then some ⟨w, .err "unsupported:no-internal", []⟩
+    else some ⟨aclGrant w kg user r, .msgs ["granted"] none, ev ⟨.kgAclGrant, .aclGrant kg user r⟩⟩
   | some ⟨.kgAclRevoke, .aclRevoke kg user⟩ =>
     (match findKg w INTERNAL with
-     | none => ⟨w, .err "unsupported:no-internal", []⟩
+     | none => some ⟨w, .err "unsupported:no-internal", []⟩
      | some k =>
        if (relOf k "kg_acls").any (aclMatches kg user) then
-         ⟨updKg w INTERNAL fun k => setRel k "kg_acls" ((relOf k "kg_acls").filter fun t => !aclMatches kg user t), .msgs ["revoked"] none, ev ⟨.kgAclRevoke, .aclRevoke kg user⟩⟩
-       else ⟨w, .err "noacl", []⟩)
+         some ⟨updKg w INTERNAL fun k => setRel k "kg_acls" ((relOf k "kg_acls").filter fun t => !aclMatches kg user t), .msgs ["revoked"] none, ev ⟨.kgAclRevoke, .aclRevoke kg user⟩⟩
+       else some ⟨w, .err "noacl", []⟩)
   | some ⟨k, _⟩ =>
-    if (k == .sessionList || k == .sessionDrop || k == .sessionDropName) && sraw.isNone then ⟨w, .err "nosession", []⟩   -- `ok_or("No active session")`
+    if (k == .sessionList || k == .sessionDrop || k == .sessionDropName) && sraw.isNone then some ⟨w, .err "nosession", []⟩   -- `ok_or("No active session")`
     else if k == .sessionList || k == .sessionDrop || k == .sessionDropName || k == .userCreate || k == .userDrop || k == .userPassword
        || k == .userRole || k == .apiKeyCreate || k == .apiKeyList || k == .apiKeyRevoke || k == .kgAclGrant || k == .kgAclRevoke then
-      ⟨w, .err s!"unsupported:fast-path-{k.name}", []⟩
-    else execRest P w rq role whole sraw curKg
-  | none => execRest P w rq role whole sraw curKg
+      some ⟨w, .err s!"unsupported:fast-path-{k.name}", []⟩
+    else none
+  | none => none
+
+/-- `Handler::execute_program` (after the repair): identity refresh; authorization of every logical
+    line with the running KG, before anything runs; then — for one-statement programs only — the fast
+    path and the session interception; else the query path. -/
+def execProgram (P : Parser) (w : World) (rq : Req) : Out :=
+  match identityOf w rq.user with
+  | none => ⟨w, .err "denied-nouser", []⟩
+  | some role =>
+  let sraw : Option Sess := sessOf w rq
+  let start := startKgOf rq sraw
+  match authorizeProgram P w role (some start) (logicalLines rq.text) with
+  | some e => ⟨w, .err e, []⟩
+  | none =>
+  let single := singleStmt P rq.text
+  match fastPath w sraw single start with
+  | some o => o
+  | none => execRest P w rq role single sraw (some start)
 
 end ILV.Handler
